@@ -12,6 +12,19 @@ TRUST = ("Trusted: govc itself (go/ssa semantics, memory model, contract parser)
          "slice/string/map lengths < 2^48, sequential semantics. Integers are mathematical with Go wrap-around written out.")
 
 CLAIMED = {
+ "C02": dict(
+   text=("Deductive proof of the token-class clauses that are contracts on real functions: the lexer cursor (next, backup, peek, acceptRun: under C16); an "
+         "unquoted token ends at, and only at, white space, a quote, ';', '{', '}' or the end of input, every other character belongs to it "
+         "(lexUnquoted, assertions at its two calls); in a double-quoted string a backslash pair other than \\n \\t \\\" \\\\ is an error, reported at the "
+         "backslash, unless the lexer is in pattern mode, and an unterminated string is reported at its opening quote at end of input only "
+         "(lexQString); ';' '{' '}' and a '+' in front of a quote are tokens of their own (lexGround); a concatenation is handed on as the token of its "
+         "first piece (parser.next, loop invariant); Parse returns no statements when it returns an error. These are partial contracts: the cursor "
+         "preconditions of the calls inside are assumed. The content clauses (which bytes end up in an argument: indentation stripping, trailing-blank "
+         "trimming, escapes, concatenation, nesting and order) are bounded (labelled): statement forests generated as data, written in random RFC 7950 "
+         "6.1.3 spellings with comments, tabs, CR LF and multi-byte characters between tokens, must parse back to exactly the forest; every text is "
+         "also damaged once and must then be rejected with nothing returned; the four constructs the property leaves open are not generated. Not "
+         "decided: acceptance iff well-formed as a language equivalence."),
+   ref="8 (C02)"),
  "C08": dict(
    text=("Deductive proof on Entry.ApplyDeviate (partial contract): whatever deviate statements a deviation has, the loop that applies them writes only the "
          "target node -- its config, default, mandatory, units, type, the two bounds of its list attributes -- the child map and error list of the target's "
@@ -173,7 +186,6 @@ CLAIMED = {
 }
 
 NOT_REACHED = {
- "C02": "not applicable with the contracts within reach: the property is about string content (which bytes end up in a token, RFC 7950 indentation stripping) inside the lexer state functions, which communicate through a channel and function values and range over strings -- outside the go/ssa subset govc translates, and content equalities need a sequence theory the installed solvers do not decide reliably. The cursor functions the lexer is built on are proved under C16. DESIGN.md section 13.",
  "C03": "not applicable with the contracts within reach: the statement-to-node mirroring is implemented by closures over reflect generated at init; reflection results are opaque to the memory model, so no contract can express that each substatement lands in its field. Only Modules.add's 'modules and submodules only' clause is proved (counted under C13). DESIGN.md section 13.",
  "C18": "not applicable with the contracts within reach: two thirds of the statement relate whole runs (processing twice vs once, incremental vs batch loading), which contract-based verification of single calls cannot state; the single-call part (a failed load leaves no trace) lives on Modules.Parse, whose body is an unknown call into the reflection builder, so no frame can be proved across it. One defect of this property (a type resolved with errors came out clean on the second run) was found, repaired (fix 5ab493d) and is guarded by the two-run comparison of the C09 stand-in. DESIGN.md section 13.",
 }
